@@ -66,3 +66,15 @@ Example C20_example :
   let r := exec nat p (fun _ => 0%nat) in
   map (fst r) (seq 0 6) = [0; 0; 0; 0; 1; 0]%nat /\ snd r = Exc.
 Proof. vm_compute. split; reflexivity. Qed.
+
+(* ------------------------------------------------------------------------------------------------------
+   Added in build session 4 (statements re-stated from the proof files by harness tooling; each is closed by
+   exact). *)
+From SplipyModel Require Import Transfer.ParamObj Transfer.ParamOps Transfer.ParamOps2.
+Open Scope R_scope.
+Theorem C20_executed_is_proved_continuity :
+  forall (tol : QArith_base.Q) (b : basis QArith_base.Q) (x : QArith_base.Q),
+         basis_continuity tol b x = basis_continuity (Q2R tol) (basisQ2R b) (Q2R x).
+Proof. exact @basis_continuity_transfer. Qed.
+Print Assumptions C20_executed_is_proved_continuity.
+
